@@ -6,7 +6,9 @@ use crate::fin::*;
 use crate::stubs::*;
 use muxide::verif_hooks::mp4::verif as mp4h;
 
-fn layout_body<const NV: usize, const NA: usize>(fast_start: bool, audio_track: bool, moov_len: usize) {
+fn layout_body<const NV: usize, const NA: usize>(fast_start: bool, audio_track: bool, stub_len: usize, with_meta: bool) {
+    const META_EXTRA: usize = 5; // the stand-in moov grows by this much when metadata is passed
+    let moov_len = stub_len + if with_meta { META_EXTRA } else { 0 };
     let vpts: [u64; NV] = kani::any();
     let apts: [u64; NA] = kani::any();
     let mut reordered = false;
@@ -21,11 +23,19 @@ fn layout_body<const NV: usize, const NA: usize>(fast_start: bool, audio_track: 
     if crate::known::KF_C01_REORDERED_VIDEO_WITH_AUDIO && audio_track {
         kani::assume(!reordered);
     }
-    let c = carrier(moov_len);
+    let mut c = carrier(stub_len);
+    c.meta_extra = META_EXTRA;
+    let md = muxide::api::Metadata { title: Some(String::from("t")), creation_time: None, language: None };
+    let mref = if with_meta { Some(&md) } else { None };
     let vkey: [bool; NV] = core::array::from_fn(|i| i % 2 == 0);
     let mut w = build_writer::<NV, NA>(RecSink::new(), vpts, vkey, apts, audio_track);
-    let r = w.finalize(&c.track, None, fast_start);
+    let r = w.finalize(&c.track, mref, fast_start);
     assert!(r.is_ok());
+    if replay_mode() {
+        native_finalize_check::<NV, NA>(&mp4h::sink(&w).log, &vpts, &vkey, &apts, audio_track, fast_start);
+        core::mem::forget((w, r));
+        return;
+    }
     let sink = mp4h::sink(&w);
     let mc = final_call(&c);
     // ---- top-level order -------------------------------------------------------
@@ -35,6 +45,7 @@ fn layout_body<const NV: usize, const NA: usize>(fast_start: bool, audio_track: 
         assert!(moov_pos == FTYP_LEN && mdat_pos == FTYP_LEN + moov_len as u64, "fast start: ftyp, moov, mdat");
         // both passes see tables of the same shape (so the measured length is the final length)
         let p0 = c.call0.get();
+        assert!(p0.metadata_present == with_meta, "the measuring pass is built with the same metadata as the final moov");
         assert!(c.calls.get() == 2 && p0.video.n == mc.video.n && p0.video.n_chunks == mc.video.n_chunks && p0.video.n_keyframes == mc.video.n_keyframes
             && p0.video.has_bframes == mc.video.has_bframes && p0.audio_present == mc.audio_present && p0.audio.n == mc.audio.n && p0.audio.n_chunks == mc.audio.n_chunks,
             "placeholder and final moov are built from tables of identical shape");
@@ -43,6 +54,7 @@ fn layout_body<const NV: usize, const NA: usize>(fast_start: bool, audio_track: 
     }
     let data_start = mdat_pos + 8;
     // ---- tables common to both layouts (reference from the inputs) -----------------
+    assert!(mc.metadata_present == with_meta, "the moov builder receives the configured metadata");
     let v = mc.video;
     assert!(v.n == NV && v.n_keyframes == (NV + 1) / 2);
     let mut any_off = false;
@@ -81,17 +93,20 @@ fn layout_body<const NV: usize, const NA: usize>(fast_start: bool, audio_track: 
     }
     kani::cover!(any_off, "composition offsets present");
     kani::cover!(!any_off, "no composition offsets");
-    core::mem::forget((w, r));
+    core::mem::forget((w, r, md));
 }
 
 macro_rules! lay_h {
     ($name:ident, $nv:expr, $na:expr, $fast:expr, $audio:expr, $pad:expr, $unw:expr) => {
+        lay_h!($name, $nv, $na, $fast, $audio, $pad, $unw, false);
+    };
+    ($name:ident, $nv:expr, $na:expr, $fast:expr, $audio:expr, $pad:expr, $unw:expr, $meta:expr) => {
         #[kani::proof]
         #[kani::unwind($unw)]
         #[kani::stub(muxide::invariant_ppt::__assert_invariant_impl, crate::stubs::assert_invariant_stub)]
         #[kani::stub(muxide::muxer::mp4::build_moov_box, muxide::verif_hooks::mp4::verif::moov_recording_stub)]
         pub fn $name() {
-            layout_body::<$nv, $na>($fast, $audio, $pad);
+            layout_body::<$nv, $na>($fast, $audio, $pad, $meta);
         }
     };
 }
@@ -112,6 +127,13 @@ lay_h!(c08_fast_v2a1_pad0, 2, 1, true, true, 8, 6);
 //@ prop=C08 tier=thorough cost=1200 fns="Mp4Writer::finalize,finalize_fast_start,compute_interleave_schedule" bound="fast start, 2 video + 1 audio samples, moov length 13" unwind=6 stubs="build_moov_box(recording stand-in)" timeout=3000 mem=30
 lay_h!(c08_fast_v2a1_pad5, 2, 1, true, true, 13, 6);
 
+//@ prop=C08 tier=quick cost=500 fns="Mp4Writer::finalize,finalize_fast_start,compute_interleave_schedule" bound="fast start WITH metadata (the stand-in moov is 5 bytes longer when metadata is passed), 1 video + 1 audio sample" unwind=6 stubs="build_moov_box(recording stand-in)" timeout=1400
+lay_h!(c08_fast_v1a1_meta, 1, 1, true, true, 8, 6, true);
+//@ prop=C08 tier=quick cost=400 fns="Mp4Writer::finalize,finalize_fast_start" bound="fast start WITH metadata, video-only 2 samples" unwind=6 stubs="build_moov_box(recording stand-in)" timeout=1400
+lay_h!(c08_fast_v2_meta, 2, 0, true, false, 8, 6, true);
+//@ prop=C08 tier=thorough cost=400 fns="Mp4Writer::finalize,finalize_standard,compute_interleave_schedule" bound="standard WITH metadata, 1 video + 1 audio sample" unwind=6 stubs="build_moov_box(recording stand-in)" timeout=2400
+lay_h!(c08_std_v1a1_meta, 1, 1, false, true, 8, 6, true);
+
 // flag plumbing: Muxer::finish_in_place_with_stats passes its fast_start flag to the writer
 //@ prop=C08 tier=quick cost=400 fns="api::Muxer::finish_in_place_with_stats,MuxerBuilder::with_fast_start,Mp4Writer::finalize" bound="API-level muxer with 1 VP9 frame, fast_start flag symbolic" unwind=12 stubs="build_moov_box(recording stand-in)" timeout=1500
 #[kani::proof]
@@ -131,6 +153,15 @@ pub fn c08_api_flag_plumbing() {
     let r = m.finish_in_place_with_stats();
     assert!(r.is_ok());
     let sink = mp4h::sink(muxide::api::verif::writer(&m));
+    if replay_mode() {
+        let p = crate::native_mp4::parse(&sink.log).expect("well-formed file");
+        let names: Vec<[u8; 4]> = p.top.iter().map(|t| t.0).collect();
+        let moov_i = names.iter().position(|n| n == b"moov").unwrap();
+        let mdat_i = names.iter().position(|n| n == b"mdat").unwrap();
+        assert!((moov_i < mdat_i) == fast, "moov precedes mdat iff fast start was requested");
+        core::mem::forget((m, r0, r));
+        return;
+    }
     let moov_pos = sink.pos_of(MOOV_TAG).unwrap();
     let mdat_pos = sink.pos_of(b'm').unwrap() - 4;
     assert!((moov_pos < mdat_pos) == fast, "moov precedes mdat iff fast start was requested");
